@@ -166,7 +166,10 @@ class PGSchema(pg.PluginGroup[MetadataSchema]):
         while parent is not None:
             p_ref = parent.Plugin.ref()
             ret.append(p_ref)
-            curr = self._get_unsafe(p_ref.name, p_ref.version)
+            # continue with the actual parent class (there could be a newer compatible
+            # version of that plugin, which can have different parents)
+            self._ensure_is_loaded(p_ref)  # (initializes it in this group, if needed)
+            curr = parent
             parent = self._parent_schema[curr]
 
         ret.reverse()
